@@ -14,7 +14,26 @@ let split_on c s = if s = "-" || s = "" then [] else String.split_on_char c s
 let rec uniq = function [] -> [] | x :: r -> x :: uniq (List.filter (fun y -> y <> x) r)
 
 (* ---- description -> model ---- *)
-let parse_tables (s : string) : csrc =
+(* file/csv table `name=rows[~DDki]` (grammar: harness/internal/a15/spec.go).  Model side: the file the
+   harness writes (print_csv of the lines) read by the model of readCsv with the written options
+   (None = the source fails to initialise); specification side: csv_spec of the lines (C15_csv_source). *)
+let csv_table (spec_side : bool) (name : string) (v : string) : (n list * n list) list list option =
+  let rows, o = (match String.index_opt v '~' with
+      | Some i -> (String.sub v 0 i, String.sub v (i + 1) 4)
+      | None -> (v, "2cfn")) in
+  let r = int_of_string rows in
+  let dopt = if String.sub o 0 2 = "--" then [] else bytes_of_hex (String.sub o 0 2) in
+  let d = (match dopt with [] -> n_of_int 44 | c :: _ -> c) in
+  let header = (o.[2] = 'h') and ignore = (o.[3] = 'i') in
+  let data = List.init r (fun i -> [ bs (String.sub name 0 1 ^ string_of_int i); bs ("n" ^ string_of_int i) ]) in
+  let lines = (if header then [ [ bs "id"; bs "name" ] ] else if ignore then [ [ bs "ID"; bs "NAME" ] ] else []) @ data in
+  let fields = if header then [] else [ bs "id"; bs "name" ] in
+  if spec_side then Some (csv_spec fields ignore lines)
+  else match read_csv { co_delim = dopt; co_fields = fields; co_ignore = ignore } (print_csv d lines) with
+    | CsvOk rows -> Some rows
+    | _ -> None
+
+let parse_tables_side (spec_side : bool) (s : string) : csrc option =
   let all = List.map (fun p ->
       match String.split_on_char '=' p with
       | [name; rows] -> (name, rows)
@@ -27,20 +46,23 @@ let parse_tables (s : string) : csrc =
          | [_; value] -> Some (bs (String.sub name 2 (String.length name - 2)), bytes_of_hex value)
          | _ -> failwith "gvar")
       else None) all in
-  let entries = List.filter_map (fun (name, v) -> if is_g name then None else Some (name, int_of_string v)) all in
-  let tables = List.filter_map (fun (name, r) ->
+  let entries = List.filter (fun (name, _) -> not (is_g name)) all in
+  let tables = List.filter_map (fun (name, v) ->
       if String.contains name '.' then None
-      else Some (bs name, List.init r (fun i ->
-          [ (bs "id", bs (String.sub name 0 1 ^ string_of_int i)); (bs "name", bs ("n" ^ string_of_int i)) ]))) entries in
+      else Some (bs name, csv_table spec_side name v)) entries in
   (* src.list=n : list variable of the variables source src, elements src-list[0]<i> *)
   let vl = List.filter_map (fun (name, n) ->
       match String.index_opt name '.' with
       | Some k ->
+          let n = int_of_string n in
           let src = String.sub name 0 k and lst = String.sub name (k + 1) (String.length name - k - 1) in
           Some (src, (bs lst, List.init n (fun i -> bs (src ^ "-" ^ String.sub lst 0 1 ^ string_of_int i))))
       | None -> None) entries in
   let srcs = uniq (List.map fst vl) in
-  { cs_tables = tables; cs_glob = gvars @ [ (bs "a", bs "va"); (bs "b", bs "vb"); (bs "k7", bs "7"); (bs "k2", bs "2") ];
+  if List.exists (fun (_, t) -> t = None) tables then None
+  else Some
+  { cs_tables = List.map (fun (nm, t) -> (nm, match t with Some r -> r | None -> [])) tables;
+    cs_glob = gvars @ [ (bs "a", bs "va"); (bs "b", bs "vb"); (bs "k7", bs "7"); (bs "k2", bs "2") ];
     cs_vlists = List.map (fun src -> (bs src, List.map snd (List.filter (fun (x, _) -> x = src) vl))) srcs }
 
 let parse_mapping (m : string) : n list * pexpr =
@@ -100,7 +122,7 @@ let resp_for (k : int) (act : string) : cresp option =
   else if act = "n" then Some { dflt with rs_json = false; rs_fields = []; rs_okbody = false }
   else if act = "m" then Some { dflt with rs_fields = [ (bs "other", bs ("x" ^ ks)) ]; rs_okbody = false }
   else if act = "h" then Some { dflt with rs_hdr = None }
-  else if act.[0] = 's' then Some { dflt with rs_status = z_of_string (String.sub act 1 (String.length act - 1)) }
+  else if act.[0] = 's' || act.[0] = 'r' then Some { dflt with rs_status = z_of_string (String.sub act 1 (String.length act - 1)) }
   else failwith ("act " ^ act)
 
 let dflt_resp (k : nat) : cresp =
@@ -224,9 +246,11 @@ let split_shots (obs : string) : string list =
   | _ :: rest -> List.map (fun p -> match String.index_opt p ']' with Some i -> String.sub p 0 i | None -> p) rest
   | [] -> []
 
+(* model-side sources (None = a csv source fails to initialise), specification-side sources *)
 let build_of tables reqs scens =
-  let src = parse_tables tables and rq = parse_reqs reqs and sc = parse_scens scens in
-  (src, rq, sc, build rq sc)
+  let src = parse_tables_side false tables and rq = parse_reqs reqs and sc = parse_scens scens in
+  let ssrc = (match parse_tables_side true tables with Some x -> x | None -> assert false) in
+  ((src, ssrc), rq, sc, build rq sc)
 
 let build_fail = function
   | BuildPanic -> "panic"
@@ -473,14 +497,20 @@ let predict (c : string) (obs : string) : string * string * bool =
            (* construction must succeed when every list reads and the weights are fine *)
            let readable = spec_ring_ok sc && List.for_all (fun e -> e <> None) (spec_exps rq sc) in
            (build_fail f, verdict (not readable) "a well-formed description was rejected by the model", false))
-  | ["shot"; nshots; script; tables; reqs; scens] ->
-      let (src, rq, sc, b) = build_of tables reqs scens in
+  | "shot" :: nshots :: script :: tables :: reqs :: scens :: _gun ->
+      (* the gun option (registered defaults / redirect: false written) does not enter the model: a gun
+         built from a pool config that does not ask for redirects hands every answer, 3xx included, to the step *)
+      let ((src, ssrc), rq, sc, b) = build_of tables reqs scens in
       (match b with
        | BuildOk (exps, ring) ->
-           if not (src_wf src) then ("unmodelled-empty-table", "ok", false)
+           if not (src_wf ssrc) then ("unmodelled-empty-table", "ok", false)
            else begin
-             let rs = run_shots src exps ring O (nat_of_int (int_of_string nshots)) (world0 (parse_script script)) in
-             let p = "ok " ^ String.concat " " (List.map (print_shot sc exps) rs) in
+             let run s = run_shots s exps ring O (nat_of_int (int_of_string nshots)) (world0 (parse_script script)) in
+             let p = (match src with
+                 | Some s -> "ok " ^ String.concat " " (List.map (print_shot sc exps) (run s))
+                 | None -> "err") in
+             (* from here on: the specification side, on the sources as csv_spec reads the files *)
+             let rs = run ssrc in
              let names = uniq (List.map (fun r -> r.cq_name) rq) in
              let sexps = spec_exps rq sc in
              let sring = if spec_ring_ok sc then Some (spec_ring (List.map (fun s -> s.sc_weight) sc)) else None in
@@ -514,9 +544,10 @@ let predict (c : string) (obs : string) : string * string * bool =
            end
        | f -> (build_fail f, "ok", false))
   | ["inst"; _inst; total; tables; reqs; scens] ->
-      let (src, _, sc, b) = build_of tables reqs scens in
+      let ((src, ssrc), _, sc, b) = build_of tables reqs scens in
       (match b with
        | BuildOk (exps, ring) ->
+         let side src =
            let rs = run_shots src exps ring O (nat_of_int (int_of_string total)) (world0 []) in
            let nsamples = ref 0 in
            let rows = Hashtbl.create 7 in
@@ -531,11 +562,13 @@ let predict (c : string) (obs : string) : string * string * bool =
                    | EvSampleOk _ | EvSampleFail _ -> incr nsamples
                    | _ -> ()) r.sr_events) rs;
            let names = List.sort compare (Hashtbl.fold (fun k _ acc -> k :: acc) rows []) in
-           let p = Printf.sprintf "ok samples=%d failed=0 %s" !nsamples
+           Printf.sprintf "ok samples=%d failed=0 %s" !nsamples
                (String.concat " " (List.map (fun k -> k ^ "=" ^ String.concat "," (List.sort compare (Hashtbl.find rows k))) names)) in
+           let p = (match src with Some s -> side s | None -> "err") in
+           let w = side ssrc in
            let why = if obs = "crash" then "instances crashed (fatal runtime error) while shooting concurrently"
              else "rows handed out by [next] are not the consecutive rows round-robin" in
-           (p, verdict (obs = p) why, true)
+           (p, verdict (obs = w) why, true)
        | f -> (build_fail f, "ok", false))
   | ["iter"; g; per; len; _rounds] ->
       let g = int_of_string g and per = int_of_string per and len = int_of_string len in
